@@ -79,6 +79,15 @@ def matmul222f : List KAcc := [ld 0 0 4, ld 1 0 4, st 0 4]
 def matmul444f : List KAcc :=
   [ld 1 0 4, ld 1 4 4, ld 1 8 4, ld 1 12 4] ++ (List.range 16).map (el 0) ++ [st 0 4, st 4 4, st 8 4, st 12 4]
 
+/-- `_dyadic<float,3,3>` (AVX builds, after the repair): 3-lane loads of both operands, two 4-lane row stores and the
+    3-lane helper for the last row; `_dyadic<double,3,3>`: `a` by elements -/
+def dyadic33f (br : Branch) : List KAcc := [ld3 br 0 0, ld3 br 1 0, st 0 4, st 3 4, st3 br 6]
+def dyadic33d (br : Branch) : List KAcc := [ld3 br 1 0, el 0 0, el 0 1, el 0 2, st 0 4, st 3 4, st3 br 6]
+/-- before the repair (history): 4-lane loads, 4-lane store at `out+6` -/
+def dyadic33f_before : List KAcc := [ld 0 0 4, ld 1 0 4, st 0 4, st 3 4, st 6 4]
+/-- `_dyadic<float,2,2>` (after the repair: 64-bit loads), `_dyadic<T,4,4>` -/
+def dyadic22f : List KAcc := [ld 0 0 2, ld 1 0 2, st 0 4]
+
 /-- element offsets of operand `opnd` read (`w = false`) or written (`w = true`), in order -/
 def offsets (k : List KAcc) (opnd : Nat) (w : Bool) : List Nat :=
   (k.filter fun x => x.opnd == opnd && x.write == w).flatMap fun x => x.lanes.map (x.off + ·)
